@@ -111,6 +111,9 @@ func (t *cmdTracer) StartTask(task tracing.Task) {
 		for _, dir := range t.l1Dirs {
 			dir.Reset()
 		}
+		if os.Getenv("BENCHRUN_DEBUG") != "" {
+			fmt.Fprintf(os.Stderr, "DEBUG reset %d L1 directories at %s %s\n", len(t.l1Dirs), task.What, task.ID)
+		}
 	}
 	if task.Kind != "Driver Command" || task.What != "*driver.MemCopyD2HCommand" {
 		return
@@ -193,6 +196,9 @@ func (t digestTracer) AddMilestone(tracing.Milestone) {}
 func (t digestTracer) EndTask(tracing.Task)           {}
 
 func (d *digester) write() {
+	if d.path == "" {
+		return
+	}
 	d.mu.Lock()
 	out := benchcase.Digest{D2HRequests: d.d2hN, Kernels: d.kernels}
 	keys := make([]benchcase.WaveID, 0, len(d.waves))
